@@ -35,6 +35,8 @@ def generate(tier, rng):
         else:
             t = gen.random_ptier(rng, tmax=big)
             op = "space"
+        if rng.random() < 0.12:
+            t = gen.shift_tier(t, -rng.randint(1, big))            # times before 0 are ordinary times here
         s = rng.randint(t["min"], t["max"])
         if t["entries"] and rng.random() < 0.4:
             s = rng.choice([x for e in t["entries"] for x in e[:-1]])
